@@ -106,14 +106,14 @@ inline void Exec::new_alloc(int ki, bool force_valid, bool small) {
     sc.type = ty; sc.r = r; sc.c = cc; sc.P = std::max(r, cc); sc.F = F; sc.ab = false;
     sc.freq = cs::gen_freqs(c, F);
     for (int f = 0; f < F; f++) sc.box.push_back(cs::gen_box(c, ty, r, cc));
-    {
+    if (F > 0) {
         cs::Gen g(c, sc);
         g.baseline(); g.cover_leakage(); g.shuffle();
         N->todo.swap(sc.stds);
     }
     K.news.push_back(std::move(N));
     int ni = (int)K.news.size() - 1;
-    if (F > 0 && (force_valid || !c.chance(1, 6))) new_setfreq(ki, ni);
+    if ((F > 0 || no_exclude) && (force_valid || !c.chance(1, 6))) new_setfreq(ki, ni);
 }
 
 inline void Exec::new_free(int ki, int ni) {
@@ -129,10 +129,10 @@ inline void Exec::new_free(int ki, int ni) {
 
 inline void Exec::new_setfreq(int ki, int ni) {
     CalObj &K = *cals[ki]; NewObj &N = *K.news[ni];
-    if (N.F == 0) { excl_zero_freq = true; return; }
+    if (N.F == 0) { excl_zero_freq = true; if (!no_exclude) return; }
     std::vector<double> fv = N.sc.freq;
     const char *why = "valid"; bool ok = true;
-    if (c.chance(1, 6)) {
+    if (N.F > 0 && c.chance(1, 6)) {
         switch (c.draw(3)) {
         case 0: fv[c.draw(fv.size())] = -1e6; why = "negative-frequency"; ok = false; break;
         case 1: if (N.F >= 2) { std::swap(fv[0], fv[N.F - 1]); why = "not-ascending"; ok = false; } break;
@@ -140,7 +140,7 @@ inline void Exec::new_setfreq(int ki, int ni) {
         }
     }
     auto fb = std::make_shared<Buf<double>>(fv.size()); for (size_t j = 0; j < fv.size(); j++) (*fb)[j] = fv[j];
-    c.note("vnacal_new_set_frequency_vector(k%d.n%d, [%d] %g..%g)%s", ki, ni, N.F, fv.front(), fv.back(), ok ? "" : "  [invalid]");
+    c.note("vnacal_new_set_frequency_vector(k%d.n%d, [%d] %g..%g)%s", ki, ni, N.F, fv.empty() ? 0.0 : fv.front(), fv.empty() ? 0.0 : fv.back(), ok ? "" : "  [invalid]");
     Call k = mk("vnacal_new_set_frequency_vector", ok ? XP_OK : XP_FAIL, C_USAGE, why, O_NEW, ki, ni);
     int rc = icall(k, [&] { return vnacal_new_set_frequency_vector(N.p, fb->p); });
     if (rc == 0) { N.freq_set = true; N.hist.push_back([fb](vnacal_new_t *p, const std::function<int(int)> &) { return vnacal_new_set_frequency_vector(p, fb->p); }); N.hist_desc.push_back("set_frequency_vector"); }
@@ -276,10 +276,11 @@ inline void Exec::new_add(int ki, int ni, bool allow_bad) {
     // ---- optional invalid twist
     Expect ex = XP_OK; const char *why = "valid"; unsigned cz = C_USAGE;
     bool unknown_rollback_region = false;
+    bool zero_a = false;
     int hist_sub_j = -1, hist_sub_q = -1;      // clone history: the clone uses its own (undeleted) twin of a deleted handle
     if (allow_bad && c.chance(1, 4)) {
         int nh = (int)a->pidx.size();
-        switch (c.weighted({2, 2, a->ab ? 2u : 0u, 2, st.k >= 2 ? 1u : 0u, nh > 0 ? 3u : 0u, st.entry == cs::Standard::MAPPED ? 2u : 0u, (st.entry == cs::Standard::MAPPED && st.k < P) ? 2u : 0u})) {
+        switch (c.weighted({2, 2, a->ab ? 2u : 0u, 2, st.k >= 2 ? 1u : 0u, nh > 0 ? 3u : 0u, st.entry == cs::Standard::MAPPED ? 2u : 0u, (st.entry == cs::Standard::MAPPED && st.k < P) ? 2u : 0u, a->ab ? 2u : 0u})) {
         case 0: a->br = c.weighted({2, 1, 1}) == 0 ? P + 1 : (c.boolean() ? 0 : -1); ex = XP_FAIL; why = "bad-matrix-dimensions"; break;
         case 1: a->bc = c.weighted({2, 1, 1}) == 0 ? P + 1 : (c.boolean() ? 0 : -1); ex = XP_FAIL; why = "bad-matrix-dimensions"; if (a->ab) { a->ac = a->bc; if (!vm::is_colsys(sc.type)) a->ar = a->bc; } break;
         case 2: if (c.boolean()) a->ar += 1; else a->ac = std::max(0, a->ac - 1); ex = XP_FAIL; why = "bad-a-dimensions"; break;
@@ -305,7 +306,8 @@ inline void Exec::new_add(int ki, int ni, bool allow_bad) {
             a->map.clear(); for (int q = 0; q < ports; q++) a->map.push_back(std::min(q + 1, P)); a->null_map = false;
             ex = XP_FAIL; why = "bad-s-dimensions"; break;
         }
-        default: a->null_map = true; ex = XP_FAIL; why = "null-port-map"; break;
+        case 7: a->null_map = true; ex = XP_FAIL; why = "null-port-map"; break;
+        default: zero_a = true; ex = XP_FAIL; cz = C_MATH; why = "singular-a"; break;     // vnaerr(3): "'a' matrix is singular" is a MATH error
         }
     }
     if (unknown_rollback_region) { excl_unknown_rollback = true; if (!no_exclude) return; }
@@ -315,6 +317,7 @@ inline void Exec::new_add(int ki, int ni, bool allow_bad) {
     // exact-size buffers with the DECLARED dimensions
     a->B = std::make_shared<PMat>(a->br, a->bc, N.F); a->B->fill(MB);
     if (a->ab) { a->A = std::make_shared<PMat>(a->ar, a->ac, N.F); a->A->fill(MA); if (a->ar != MA.rows || a->ac != MA.cols) for (auto &cell : a->A->cells) for (size_t j = 0; j < cell.n; j++) if (re_(cell[j]) == 0 && im_(cell[j]) == 0) cell[j] = mkc(1, 0); }
+    if (zero_a && a->A) for (auto &cell : a->A->cells) for (size_t j = 0; j < cell.n; j++) cell[j] = mkc(0, 0);
     std::vector<int> h; for (size_t j = 0; j < a->pidx.size(); j++) h.push_back(a->pidx[j] >= 0 ? K.params[a->pidx[j]].h : a->raw[j]);
     const char *fn = add_fn_name(a->entry, a->ab);
     c.note("%s(k%d.n%d, %s; m %dx%d%s)%s %s", fn, ki, ni, st.describe().c_str(), a->br, a->bc, a->ab ? (" a " + std::to_string(a->ar) + "x" + std::to_string(a->ac)).c_str() : "", ex == XP_FAIL ? "  [invalid]" : "", why);
@@ -475,6 +478,25 @@ inline void Exec::new_retry_scenario(int ki) {
     if (c.boolean()) new_add(ki, ni, true);
     for (int guard = 0; guard < 64 && !K.news[ni]->todo.empty(); guard++) new_add(ki, ni, false);
     new_solve(ki, ni);
+}
+
+// a complete small calibration: all baseline standards, solve, add_calibration (so that the calibration
+// getters, properties, apply and delete have something to work on)
+inline void Exec::quick_calibration(int ki) {
+    CalObj &K = *cals[ki];
+    new_alloc(ki, true, true);
+    if (K.news.empty()) return;
+    int ni = (int)K.news.size() - 1;
+    if (!K.news[ni]->freq_set) return;
+    for (int guard = 0; guard < 64 && !K.news[ni]->todo.empty(); guard++) new_add(ki, ni, false);
+    new_solve(ki, ni);
+    NewObj &N = *K.news[ni];
+    if (!N.has_cal) return;
+    std::string name = CAL_NAMES[c.draw(sizeof CAL_NAMES / sizeof *CAL_NAMES)];
+    c.note("vnacal_add_calibration(k%d, %s, k%d.n%d)", ki, ascii(name).c_str(), ki, ni);
+    Call k = mk("vnacal_add_calibration", XP_OK, C_USAGE, "valid", O_CAL, ki);
+    int ci = icall(k, [&] { return vnacal_add_calibration(K.p, name.c_str(), N.p); });
+    if (ci >= 0) { N.has_cal = false; check_cal_index(ki, ci, name, &N); }
 }
 
 inline void Exec::op_new() {
